@@ -332,6 +332,11 @@ func (c *Ctx) c17Map() {
 					if (&eng.Search{Target: eng.IsReturnOf(g), Avoid: relay}).FromEntry(g) == nil {
 						return true
 					}
+					// … or on every path the Deny case can take through it
+					sub := c.newHookEvalParam(g, prm)
+					if (&eng.Search{Target: eng.IsReturnOf(g), Avoid: relay, Edge: sub.feasible(hcDeny)}).FromEntry(g) == nil {
+						return true
+					}
 				}
 				return false
 			}
